@@ -213,9 +213,17 @@ def build_kwargs(problem, cfg, trace, hooks=None, checkpoint=None, x0=None):
             lo = np.where(lo > P.ub, np.nextafter(lo, -inf), lo)
             kw["x0"] = lo.astype(cfg["x0_dtype"])
     kw["bounds"] = hooks["bounds_obj"] if "bounds_obj" in hooks else P.bounds.copy()
+    if cfg.get("fd_steps_as_strided_arrays"):
+        # the differencing steps given per variable, as non-contiguous views of a larger work array
+        n_ = int(np.size(kw["x0"]))
+        e_ = np.full(2 * n_, float(cfg.get("eps") or 1e-8))
+        kw["eps"] = e_[::2]
+        if cfg.get("finite_diff_rel_step") is not None:
+            r_ = np.full(2 * n_, float(cfg["finite_diff_rel_step"]))
+            kw["finite_diff_rel_step"] = r_[::2]
     for k in ("maxcor", "maxls", "maxiter", "maxfun", "ftol", "eps", "finite_diff_rel_step", "iprint",
               "ftol_linesearch", "gtol_linesearch", "xtol_linesearch", "eps_SY", "max_steplength"):
-        if k in cfg and cfg[k] is not None:
+        if k in cfg and cfg[k] is not None and k not in kw:
             kw[k] = cfg[k]
     if "gtol_obj" in hooks:
         kw["gtol"] = hooks["gtol_obj"]
